@@ -35,9 +35,11 @@
 import EasyMl.Lemmas.RecordContainer
 import EasyMl.Lemmas.RecordContainerTape
 import EasyMl.Lemmas.RecordContainerHistory
+import EasyMl.Lemmas.RecordContainerSurface
+import EasyMl.Props.C09
 
 namespace EasyMl.C06
-open EasyMl EasyMl.RC
+open EasyMl EasyMl.RC EasyMl.Iter EasyMl.Spec
 
 variable {R : Type} [Field R] [RealFns R]
 
@@ -722,6 +724,336 @@ theorem container_cross_tape_rejected (a b : Cont R) (w : World R) (h h' : Nat)
 example : (⟨[("r", 1), ("c", 1)], [((2 : ℚ), 0)], some 0⟩ : Cont ℚ).history = some 0 ∧ (0 : ℕ) ≠ 1 :=
   ⟨rfl, by decide⟩
 
+/-! ## The rest of the surface: iterators as records, conversions, `Clone`, the container as a
+source, the by-value forms (Model/RecordContainerSurface.lean)
+
+These are the items the harness drives with comparisons of its own (`api-check-failed`) or
+through an ownership form the container model identified with another one. -/
+
+/-! ### `AsRecords` over the C09 iterators -/
+
+/-- **`iter_as_records` / `AsRecords::from_tensor` / `AsRecords::from(history, TensorIterator)`**
+    yields exactly the container's element-by-element records, in row-major order of its shape,
+    then `None` forever; it never panics and never reads outside the source (every item is
+    `some (some _)`).  `state k` is C09's `ShapeIterator` after `k` calls. -/
+theorem iter_as_records_items (c : Cont R) (hc : c.WF) :
+    Enumerates c.iterAsRecordsNext c.tensorIterStart (elements c.shape)
+      (fun k => (c.toRecs[k]?).map some) (fun k => ShapeIter.steps k c.tensorIterStart) := by
+  have E := asRecords_enumerates
+    ((shape_enumerates (c.shape.map (·.2))).copy c.getReferenceUnchecked (id : R × Nat → R × Nat)) c.history
+  refine enumerates_congr E ?_
+  intro k
+  by_cases hk : k < elements c.shape
+  · have hk' : k < prod (c.shape.map (·.2)) := hk
+    have hlt : k < c.elems.length := by rw [hc.length_eq]; exact hk
+    simp only [shapeItem, hk', if_true, Option.map_some, Cont.getReferenceUnchecked,
+      getReference_unravel c k hk, toRecs_getElem?, List.getElem?_eq_getElem hlt, id]
+  · have hk' : ¬ k < prod (c.shape.map (·.2)) := hk
+    have hge : c.toRecs.length ≤ k := by
+      simp only [Cont.toRecs, List.length_map, hc.length_eq]; omega
+    simp [shapeItem, hk', List.getElem?_eq_none hge]
+
+example : (⟨[("a", 2)], [((2 : ℚ), 0), (3, 1)], some 0⟩ : Cont ℚ).WF := ⟨by decide, by simp, by simp⟩
+
+/-- … so the first `n` calls return the first `n` records (padded with `None`s), … -/
+theorem iter_as_records_collect (c : Cont R) (hc : c.WF) (n : Nat) :
+    collect c.iterAsRecordsNext n c.tensorIterStart =
+      .ok ((List.range n).map fun k => (c.toRecs[k]?).map some, ShapeIter.steps n c.tensorIterStart) := by
+  have := (iter_as_records_items c hc).collect_from n 0
+  rw [(iter_as_records_items c hc).start, Nat.zero_add, ← List.range_eq_range'] at this
+  exact this
+
+/-- … and `size_hint()` / `len()` after any `k` calls (past the end included) are exactly the
+    number of records still to come (for element counts that fit a `usize`). -/
+theorem iter_as_records_len (c : Cont R) (hfit : elements c.shape ≤ usizeMax) (k : Nat) :
+    c.iterAsRecordsSizeHint (ShapeIter.steps k c.tensorIterStart) =
+        .ok (remaining (elements c.shape) k, some (remaining (elements c.shape) k)) ∧
+      lenOfHint (c.iterAsRecordsSizeHint (ShapeIter.steps k c.tensorIterStart)) =
+        .ok (remaining (elements c.shape) k) :=
+  C09.shapeIter_len (c.shape.map fun (d : String × Nat) => d.2) hfit k
+
+example : elements [("a", 2), ("b", 3)] ≤ usizeMax := by decide
+
+/-- **`iter_row_major_as_records` / `AsRecords::from_matrix_row_major`**: the records in
+    row-major order, exact lengths at every step. -/
+theorem iter_row_major_as_records_items (c : Cont R) (hc : c.WF) (rn cn : String) (r k : Nat)
+    (hs : c.shape = [(rn, r), (cn, k)]) :
+    Enumerates c.iterRowMajorAsRecordsNext c.matIterStart (r * k)
+        (fun n => (c.toRecs[n]?).map some) (rowMajorState r k)
+      ∧ (r * k ≤ usizeMax → ∀ n,
+          Cont.asRecordsSizeHint rowMajorSizeHint (rowMajorState r k n) =
+            .ok (remaining (r * k) n, some (remaining (r * k) n))) := by
+  have hlen : c.elems.length = r * k := by
+    rw [hc.length_eq, hs]; simp [elements, prod]
+  constructor
+  · have E := asRecords_enumerates
+      ((rowMajor_enumerates r k).copy c.matrixCell (id : R × Nat → R × Nat)) c.history
+    have hstart : c.matIterStart = MatIter.new r k := by
+      simp [Cont.matIterStart, Cont.viewRows, Cont.viewColumns, hs]
+    rw [hstart]
+    refine enumerates_congr E ?_
+    intro n
+    by_cases hn : n < r * k
+    · have hk0 : 0 < k := by
+        rcases Nat.eq_zero_or_pos k with h0 | h0
+        · rw [h0] at hn; simp at hn
+        · exact h0
+      have hdiv : n / k < r := (Nat.div_lt_iff_lt_mul hk0).mpr hn
+      have hmod : n % k < k := Nat.mod_lt _ hk0
+      have hpos : n / k * k + n % k = n := Nat.div_add_mod' n k
+      have hlt : n < c.elems.length := by rw [hlen]; exact hn
+      simp only [rowMajorItem, hn, if_true, Option.map_some, Cont.matrixCell, Cont.tryGetReference,
+        Cont.getReference, hs, position_matrix, hdiv, hmod, and_self, hpos, toRecs_getElem?,
+        List.getElem?_eq_getElem hlt, id]
+    · have hge : c.toRecs.length ≤ n := by
+        simp only [Cont.toRecs, List.length_map, hlen]; omega
+      simp [rowMajorItem, hn, List.getElem?_eq_none hge]
+  · intro hfit n
+    exact rowMajorSizeHint_state r k n hfit
+
+/-- **`iter_column_major_as_records` / `AsRecords::from_matrix_column_major`**: call `n` returns
+    the record at row `n % rows`, column `n / rows`. -/
+theorem iter_column_major_as_records_items (c : Cont R) (hc : c.WF) (rn cn : String) (r k : Nat)
+    (hs : c.shape = [(rn, r), (cn, k)]) :
+    Enumerates c.iterColumnMajorAsRecordsNext c.matIterStart (r * k)
+        (fun n => if n < r * k then some (c.toRecs[n % r * k + n / r]?) else none)
+        (colMajorState r k)
+      ∧ (∀ n, n < r * k → (c.toRecs[n % r * k + n / r]?).isSome = true)
+      ∧ (r * k ≤ usizeMax → ∀ n,
+          Cont.asRecordsSizeHint colMajorSizeHint (colMajorState r k n) =
+            .ok (remaining (r * k) n, some (remaining (r * k) n))) := by
+  have hlen : c.elems.length = r * k := by
+    rw [hc.length_eq, hs]; simp [elements, prod]
+  have hbound : ∀ n, n < r * k → n % r * k + n / r < r * k := by
+    intro n hn
+    have hr0 : 0 < r := by
+      rcases Nat.eq_zero_or_pos r with h0 | h0
+      · rw [h0] at hn; simp at hn
+      · exact h0
+    have hmod : n % r < r := Nat.mod_lt _ hr0
+    have hdiv : n / r < k := (Nat.div_lt_iff_lt_mul hr0).mpr (by rw [Nat.mul_comm]; exact hn)
+    calc n % r * k + n / r < n % r * k + k := by omega
+      _ = (n % r + 1) * k := by rw [Nat.add_mul, Nat.one_mul]
+      _ ≤ r * k := Nat.mul_le_mul_right _ hmod
+  refine ⟨?_, ?_, ?_⟩
+  · have E := asRecords_enumerates
+      ((colMajor_enumerates r k).copy c.matrixCell (id : R × Nat → R × Nat)) c.history
+    have hstart : c.matIterStart = MatIter.new r k := by
+      simp [Cont.matIterStart, Cont.viewRows, Cont.viewColumns, hs]
+    rw [hstart]
+    refine enumerates_congr E ?_
+    intro n
+    by_cases hn : n < r * k
+    · have hr0 : 0 < r := by
+        rcases Nat.eq_zero_or_pos r with h0 | h0
+        · rw [h0] at hn; simp at hn
+        · exact h0
+      have hmod : n % r < r := Nat.mod_lt _ hr0
+      have hdiv : n / r < k := (Nat.div_lt_iff_lt_mul hr0).mpr (by rw [Nat.mul_comm]; exact hn)
+      simp only [colMajorItem, hn, if_true, Option.map_some, Cont.matrixCell, Cont.tryGetReference,
+        Cont.getReference, hs, position_matrix, hdiv, hmod, and_self, toRecs_getElem?, id]
+      cases c.elems[n % r * k + n / r]? <;> rfl
+    · simp [colMajorItem, hn]
+  · intro n hn
+    have : n % r * k + n / r < c.toRecs.length := by
+      simp only [Cont.toRecs, List.length_map, hlen]; exact hbound n hn
+    simp [List.getElem?_eq_getElem this]
+  · intro hfit n
+    exact colMajorSizeHint_state r k n hfit
+
+example : (⟨[("r", 1), ("c", 2)], [((2 : ℚ), 0), (3, 1)], some 0⟩ : Cont ℚ).shape
+    = [("r", 1), ("c", 2)] := rfl
+
+/-- **`with_index()` / `WithIndex::from`**: every record comes with the index it has in the
+    container (the `k`-th index of the shape), nothing else changes. -/
+theorem iter_as_records_with_index_items (c : Cont R) (hc : c.WF) :
+    Enumerates c.iterAsRecordsWithIndexNext c.tensorIterStart (elements c.shape)
+      (fun k => (c.toRecs[k]?).map fun r => (unravel (c.shape.map (·.2)) k, some r))
+      (fun k => ShapeIter.steps k c.tensorIterStart) := by
+  have E0 := (shape_enumerates (c.shape.map (·.2))).copy c.getReferenceUnchecked (id : R × Nat → R × Nat)
+  have E := asRecordsWithIndex_enumerates (E0.withIndex fun s => s.indexes) c.history
+  refine enumerates_congr E ?_
+  intro k
+  by_cases hk : k < elements c.shape
+  · have hk' : k < prod (c.shape.map (·.2)) := hk
+    have hlt : k < c.elems.length := by rw [hc.length_eq]; exact hk
+    have hidx := ((steps_spec (c.shape.map (·.2)) k).2.1 hk').2
+    simp only [shapeItem, hk', if_true, Option.map_some, Cont.getReferenceUnchecked,
+      getReference_unravel c k hk, toRecs_getElem?, List.getElem?_eq_getElem hlt, id, hidx]
+  · have hk' : ¬ k < prod (c.shape.map (·.2)) := hk
+    have hge : c.toRecs.length ≤ k := by
+      simp only [Cont.toRecs, List.length_map, hc.length_eq]; omega
+    simp [shapeItem, hk', List.getElem?_eq_none hge]
+
+/-! ### conversions, `Clone`, the container as a source -/
+
+/-- **The four `From` impls** between `Record` and the 0-dimensional `RecordTensor` keep the
+    number, the tape **and the position**: the container made from a record (by value or by
+    reference) has exactly that record as its only element-by-element record, converting back
+    (by value or by reference) returns it, nothing touches a tape (none of the functions takes
+    one). -/
+theorem from_conversions_keep_index (r : Rec R) (c : Cont R) :
+    Cont.fromRecord r = Cont.ofRecord r ∧ Cont.fromRecordRef r = Cont.ofRecord r
+      ∧ (Cont.fromRecordRef r).toRecs = [r] ∧ (Cont.fromRecord r).toRecs = [r]
+      ∧ (Cont.fromRecordRef r).intoRecordRef = .ok r ∧ (Cont.fromRecord r).intoRecord = .ok r
+      ∧ c.intoRecord = c.toRecord ∧ c.intoRecordRef = c.toRecord := by
+  refine ⟨rfl, rfl, rfl, rfl, rfl, rfl, ?_, ?_⟩ <;>
+    (simp only [Cont.intoRecord, Cont.intoRecordRef, Cont.toRecord]; cases c.elems <;> rfl)
+
+/-- **`clone` / `clone_from`**: the copy is the same container — same shape, same numbers, same
+    tape, same positions (so the same derivatives); `clone_from` is `clone` whatever the
+    overwritten container was. -/
+theorem clone_eq (c other : Cont R) :
+    c.clone = c ∧ Cont.cloneFrom other c = c ∧ c.clone.abs = c.abs := by
+  have h : c.clone = c := by
+    cases c with
+    | mk shape elems history => simp [Cont.clone]
+  exact ⟨h, h, by rw [h]⟩
+
+/-- **The container as a `TensorRef` / `MatrixRef` source.**  `view_shape` is the shape;
+    `get_reference` (and the unchecked form) at an index is the element `try_get_as_record` turns
+    into a record there — present exactly for in-bounds indexes; the matrix getters are the
+    2-dimensional case, `(row, column)` designating element `row * columns + column`. -/
+theorem source_getters_eq_element_access (c : Cont R) (hc : c.WF) (idx : List Nat) :
+    c.viewShape = c.shape
+      ∧ (c.getReference idx).map (fun e => Rec.fromExisting e c.history)
+          = c.tryGetAsRecord (Cont.position c.shape idx)
+      ∧ c.getReferenceUnchecked idx = c.getReference idx
+      ∧ (c.getReference idx).isSome = inBounds (c.shape.map (·.2)) idx
+      ∧ (∀ rn cn r k i j, c.shape = [(rn, r), (cn, k)] →
+          c.viewRows = r ∧ c.viewColumns = k
+            ∧ c.tryGetReference i j = if i < r ∧ j < k then c.elems[i * k + j]? else none) := by
+  refine ⟨rfl, ?_, rfl, getReference_some_iff c hc.length_eq idx, ?_⟩
+  · unfold Cont.getReference Cont.tryGetAsRecord
+    cases Cont.position c.shape idx with
+    | none => rfl
+    | some k => simp [Rec.fromExisting]
+  · intro rn cn r k i j hs
+    refine ⟨by simp [Cont.viewRows, hs], by simp [Cont.viewColumns, hs], ?_⟩
+    simp only [Cont.tryGetReference, Cont.getReference, hs, position_matrix]
+    by_cases hij : i < r ∧ j < k <;> simp [hij]
+
+/-- A write through `get_reference_mut` / `try_get_reference_mut` (or the unchecked forms)
+    replaces exactly the designated element: reading the index back gives what was written,
+    every other position keeps its element, shape and tape are untouched; out of range nothing
+    is written. -/
+theorem source_write_then_read (c c' : Cont R) (idx : List Nat) (e : R × Nat) :
+    (c.writeReference idx e = some c' →
+        c'.getReference idx = some e ∧ c'.shape = c.shape ∧ c'.history = c.history
+          ∧ ∃ k, Cont.position c.shape idx = some k ∧ c'.elems = c.elems.set k e)
+      ∧ (inBounds (c.shape.map (·.2)) idx = false → c.writeReference idx e = none) := by
+  constructor
+  · intro h
+    unfold Cont.writeReference at h
+    cases hp : Cont.position c.shape idx with
+    | none => simp [hp] at h
+    | some k =>
+      simp only [hp] at h
+      split at h
+      · rename_i hk
+        injection h with h; subst h
+        refine ⟨?_, rfl, rfl, k, rfl, rfl⟩
+        simp [Cont.getReference, hp, hk]
+      · cases h
+  · intro hb
+    unfold Cont.writeReference
+    rw [position_eq]
+    simp [hb]
+
+/-! ### containers over views -/
+
+/-- **An operator applied to a view of a container is the operator applied to the viewed
+    records.**  A container made by `from_existing` over a view that shows the source's elements
+    at `offsets` (in range, as many as the view's shape has cells, at least one) is well formed,
+    its element-by-element records are the source's records at those offsets, and every
+    one-container operation on it — and every two-container operation with another container of
+    the view's shape — gives the records, tapes and panic of the scalar operator applied to the
+    viewed records in the view's row-major order. -/
+theorem operator_through_view (c : Cont R) (hc : c.WF) (vshape : Shape String) (offsets : List Nat)
+    (hin : ∀ o ∈ offsets, o < c.elems.length) (hlen : offsets.length = elements vshape)
+    (hne : offsets ≠ []) :
+    (c.viewBy vshape offsets).WF
+      ∧ (c.viewBy vshape offsets).toRecs = offsets.filterMap (fun o => c.toRecs[o]?)
+      ∧ (∀ (op : UOp R) (w : World R),
+          asRecs (op.container (c.viewBy vshape offsets) w)
+            = Cont.mapRecs op.scalar (offsets.filterMap fun o => c.toRecs[o]?) w)
+      ∧ (∀ (op : BOp R) (b : Cont R) (w : World R), b.WF → b.shape = vshape →
+          (op.container (c.viewBy vshape offsets) b w).map asRecs
+            = zipRecs op.scalar (offsets.filterMap fun o => c.toRecs[o]?) b.toRecs w) := by
+  have hfm : ∀ offs : List Nat, (∀ o ∈ offs, o < c.elems.length) →
+      (offs.filterMap fun o => c.elems[o]?).length = offs.length
+        ∧ ∀ e ∈ (offs.filterMap fun o => c.elems[o]?), e ∈ c.elems := by
+    intro offs
+    induction offs with
+    | nil => intro _; exact ⟨rfl, fun e he => by cases he⟩
+    | cons o rest ih =>
+      intro h
+      have ho : o < c.elems.length := h o (by simp)
+      have ih' := ih fun x hx => h x (by simp [hx])
+      simp only [List.filterMap_cons, List.getElem?_eq_getElem ho, List.length_cons, ih'.1]
+      refine ⟨trivial, ?_⟩
+      intro e he
+      rcases List.mem_cons.mp he with rfl | he
+      · exact List.getElem_mem ho
+      · exact ih'.2 e he
+  have hwf : (c.viewBy vshape offsets).WF := by
+    refine ⟨by simp only [Cont.viewBy, (hfm offsets hin).1, hlen], ?_, ?_⟩
+    · intro hnil
+      have : (offsets.filterMap fun o => c.elems[o]?).length = 0 := by
+        simp only [Cont.viewBy] at hnil; rw [hnil]; rfl
+      rw [(hfm offsets hin).1] at this
+      exact hne (List.eq_nil_of_length_eq_zero this)
+    · intro hh e he
+      exact hc.const_zero hh e ((hfm offsets hin).2 e he)
+  have hrecs : (c.viewBy vshape offsets).toRecs = offsets.filterMap (fun o => c.toRecs[o]?) := by
+    simp only [Cont.viewBy, Cont.toRecs, List.map_filterMap, List.getElem?_map]
+  refine ⟨hwf, hrecs, ?_, ?_⟩
+  · intro op w
+    rw [(container_eq_elementwise_unary op _ w).1, hrecs]
+  · intro op b w hb hs
+    rw [container_eq_elementwise_binary op _ b w hwf hb (by simp [Cont.viewBy, hs]), hrecs]
+
+example : ∀ o ∈ [1, 0], o < [((2 : ℚ), 0), (3, 1)].length := by decide
+
+/-! ### the by-value forms -/
+
+/-- **`do_unary_assign`, `do_binary_left_assign`, `do_binary_right_assign`, `do_reset`** (tensor
+    and matrix) are the by-reference forms applied to the container that was moved in. -/
+theorem do_forms_eq (a b : Cont R) (fx dfx1 : R → R) (f dfx dfy : R → R → R) (w : World R) :
+    a.doUnaryAssign fx dfx1 w = a.unaryAssign fx dfx1 w
+      ∧ a.doBinaryLeftAssign b f dfx dfy w = a.binaryLeftAssign b f dfx dfy w
+      ∧ a.doBinaryRightAssign b f dfx dfy w = a.binaryRightAssign b f dfx dfy w
+      ∧ a.doReset w = a.reset w := by
+  refine ⟨rfl, ?_, ?_, rfl⟩
+  · unfold Cont.doBinaryLeftAssign
+    cases a.binaryLeftAssign b f dfx dfy w with
+    | ok r => cases r; rfl
+    | panic k => rfl
+  · unfold Cont.doBinaryRightAssign
+    cases a.binaryRightAssign b f dfx dfy w with
+    | ok r => cases r; rfl
+    | panic k => rfl
+
+/-- **`do_binary_right_assign` pairs every partial derivative with its own operand.**  The
+    container that comes back holds, element by element, the scalar record
+    `y.binary(x, |y, x| f(x, y), |y, x| f_y(x, y), |y, x| f_x(x, y))` of the right element `y`
+    and the left element `x`: the entry appended for it names `y`'s position with the
+    derivative `f_y(x, y)` and `x`'s position with `f_x(x, y)`. -/
+theorem do_binary_right_assign_eq_elementwise (a b : Cont R) (f dfx dfy : R → R → R) (w : World R)
+    (hs : a.shape = b.shape) (ha : a.WF) (hb : b.WF) :
+    ((a.doBinaryRightAssign b f dfx dfy w).map fun r => (r.1.shape, r.1.toRecs, r.2))
+      = (zipRecs (fun y x w => y.binary x (fun y x => f x y) (fun y x => dfy x y) (fun y x => dfx x y) w)
+          b.toRecs a.toRecs w).map fun r => (b.shape, r.1, r.2) := by
+  rw [(do_forms_eq a b id id f dfx dfy w).2.2.1]
+  unfold Cont.binaryRightAssign
+  rw [binaryLeftAssign_eq]
+  have key := binary_eq b a (fun y x => f x y) (fun y x => dfy x y) (fun y x => dfx x y) w hs.symm
+    hb.nonempty ha.nonempty
+  rw [← key]
+  cases b.binary a (fun y x => f x y) (fun y x => dfy x y) (fun y x => dfx x y) w with
+  | panic k => rfl
+  | ok r => simp [Outcome.map, asRecs, toRecs_eq]
+
 /-! ## Shapes and histories through whole programs
 
 What the generator sections "assign forms × pairings × follow-up uses" and "producer → consumer
@@ -780,33 +1112,49 @@ example : (Cont.pickHistory (none : Option Nat) (some 3)).isSome = true := by de
     containers gives the containers (shape and records: numbers, tapes, positions), the tapes and
     the panic that the same instruction gives element by element; and the containers stay well
     formed. -/
-theorem history_step_eq_elementwise (i : CInstr R) (hv : i.Valid) (cs : List (Cont R)) (w : World R)
+theorem history_step_eq_elementwise (i : CInstr R) (cs : List (Cont R)) (w : World R)
     (hwf : AllWF cs) :
     (i.stepModel cs w).map absState = i.stepSpec (cs.map Cont.abs) w
       ∧ ∀ cs' w', i.stepModel cs w = .ok (cs', w') → AllWF cs' := by
   cases i with
   | vars h shape vals =>
-    obtain ⟨hlen, hne⟩ := hv
-    constructor
-    · have key := variables_eq h shape vals w hlen
-      simp only [asRecs, Prod.ext_iff] at key
-      simp only [CInstr.stepModel, CInstr.stepSpec, Outcome.map, absState, List.map_append,
-        List.map_cons, List.map_nil, Cont.abs, ← key.1, ← key.2]
-      simp [Cont.variables]
-    · intro cs' w' h
-      simp only [CInstr.stepModel] at h
-      injection h with h; injection h with h1 _; subst h1
-      exact allWF_append hwf (((container_wf w).1 shape vals hlen hne).2 h)
+    simp only [CInstr.stepModel, CInstr.stepSpec]
+    by_cases hbad : vals.length ≠ elements shape ∨ vals.length = 0
+    · rw [if_pos hbad, if_pos hbad]
+      exact ⟨rfl, fun _ _ h => by cases h⟩
+    · rw [if_neg hbad, if_neg hbad]
+      have hlen : vals.length = elements shape := by
+        by_cases h : vals.length = elements shape
+        · exact h
+        · exact absurd (Or.inl h) hbad
+      have hne : vals ≠ [] := fun h => hbad (Or.inr (by rw [h]; rfl))
+      constructor
+      · have key := variables_eq h shape vals w hlen
+        simp only [asRecs, Prod.ext_iff] at key
+        simp only [Outcome.map, absState, List.map_append,
+          List.map_cons, List.map_nil, Cont.abs, ← key.1, ← key.2]
+        simp [Cont.variables]
+      · intro cs' w' h'
+        injection h' with h'; injection h' with h1 _; subst h1
+        exact allWF_append hwf (((container_wf w).1 shape vals hlen hne).2 h)
   | consts shape vals =>
-    obtain ⟨hlen, hne⟩ := hv
-    constructor
-    · simp only [CInstr.stepModel, CInstr.stepSpec, Outcome.map, absState, List.map_append,
-        List.map_cons, List.map_nil, Cont.abs]
-      simp [Cont.constants, toRecs_eq, recsOf, Rec.constant, List.map_map, Function.comp_def]
-    · intro cs' w' h
-      simp only [CInstr.stepModel] at h
-      injection h with h; injection h with h1 _; subst h1
-      exact allWF_append hwf ((container_wf w).1 shape vals hlen hne).1
+    simp only [CInstr.stepModel, CInstr.stepSpec]
+    by_cases hbad : vals.length ≠ elements shape ∨ vals.length = 0
+    · rw [if_pos hbad, if_pos hbad]
+      exact ⟨rfl, fun _ _ h => by cases h⟩
+    · rw [if_neg hbad, if_neg hbad]
+      have hlen : vals.length = elements shape := by
+        by_cases h : vals.length = elements shape
+        · exact h
+        · exact absurd (Or.inl h) hbad
+      have hne : vals ≠ [] := fun h => hbad (Or.inr (by rw [h]; rfl))
+      constructor
+      · simp only [Outcome.map, absState, List.map_append,
+          List.map_cons, List.map_nil, Cont.abs]
+        simp [Cont.constants, toRecs_eq, recsOf, Rec.constant, List.map_map, Function.comp_def]
+      · intro cs' w' h
+        injection h with h; injection h with h1 _; subst h1
+        exact allWF_append hwf ((container_wf w).1 shape vals hlen hne).1
   | un op a =>
     simp only [CInstr.stepModel, CInstr.stepSpec, abs_get]
     cases hc : cs[a]? with
@@ -974,13 +1322,158 @@ theorem history_step_eq_elementwise (i : CInstr R) (hv : i.Valid) (cs : List (Co
         · rw [if_pos hs, binary_shape_mismatch x y _ _ _ w hs]
           exact ⟨rfl, fun _ _ h => by cases h⟩
 
+  | rightAssign op a b =>
+    simp only [CInstr.stepModel, CInstr.stepSpec, abs_get]
+    cases hx : cs[a]? with
+    | none => exact ⟨rfl, fun _ _ h => by cases h⟩
+    | some x =>
+      cases hy : cs[b]? with
+      | none => exact ⟨rfl, fun _ _ h => by cases h⟩
+      | some y =>
+        have hxw := allWF_get hwf a x hx
+        have hyw := allWF_get hwf b y hy
+        simp only [Option.map_some, Cont.abs]
+        rw [(do_forms_eq x y id id _ _ _ w).2.2.1]
+        unfold Cont.binaryRightAssign
+        rw [binaryLeftAssign_eq]
+        by_cases hs : x.shape = y.shape
+        · rw [if_neg (not_not.mpr hs)]
+          have key := binary_eq y x (fun v u => op.fns.1 u v) (fun v u => op.fns.2.2 u v)
+            (fun v u => op.fns.2.1 u v) w hs.symm hyw.nonempty hxw.nonempty
+          cases hbin : y.binary x (fun v u => op.fns.1 u v) (fun v u => op.fns.2.2 u v)
+              (fun v u => op.fns.2.1 u v) w with
+          | panic k =>
+            rw [hbin] at key
+            simp only [Outcome.map] at key
+            rw [← key]
+            exact ⟨rfl, fun _ _ h => by cases h⟩
+          | ok r =>
+            obtain ⟨c0, w0⟩ := r
+            have hspec := binary_ok_spec y x _ _ _ w hyw hxw c0 w0 hbin
+            rw [hbin] at key
+            simp only [Outcome.map, asRecs] at key
+            rw [← key]
+            constructor
+            · simp [Outcome.map, absState, Cont.abs, List.map_set, toRecs_eq]
+            · intro cs' w' h
+              simp only [Outcome.map] at h
+              injection h with h; injection h with h1 _; subst h1
+              refine allWF_set hwf b ⟨?_, hspec.1.nonempty, hspec.1.const_zero⟩
+              have := hspec.1.length_eq
+              rw [hspec.2.2.1] at this
+              exact this
+        · have hs' : y.shape ≠ x.shape := fun e => hs e.symm
+          rw [if_pos hs, binary_shape_mismatch y x _ _ _ w hs']
+          exact ⟨rfl, fun _ _ h => by cases h⟩
+  | clone a =>
+    simp only [CInstr.stepModel, CInstr.stepSpec, abs_get]
+    cases hc : cs[a]? with
+    | none => exact ⟨rfl, fun _ _ h => by cases h⟩
+    | some c =>
+      have hcw := allWF_get hwf a c hc
+      have hcl : Cont.cloneFrom c c.clone = c := by
+        rw [(clone_eq c c).1]; exact (clone_eq c c).2.1
+      simp only [Option.map_some]
+      rw [hcl]
+      constructor
+      · simp [Outcome.map, absState]
+      · intro cs' w' h
+        injection h with h; injection h with h1 _; subst h1
+        exact allWF_append hwf hcw
+  | viaRecord a =>
+    simp only [CInstr.stepModel, CInstr.stepSpec, abs_get]
+    cases hc : cs[a]? with
+    | none => exact ⟨rfl, fun _ _ h => by cases h⟩
+    | some c =>
+      have hcw := allWF_get hwf a c hc
+      simp only [Option.map_some, Cont.abs, Cont.intoRecord, Cont.intoRecordRef, toRecs_eq]
+      cases he : c.elems with
+      | nil => exact absurd he hcw.nonempty
+      | cons e es =>
+        constructor
+        · simp [Outcome.map, absState, Cont.abs, Cont.fromRecordRef, Rec.fromExisting, Rec.clone,
+            toRecs_eq, recsOf]
+        · intro cs' w' h
+          simp only [] at h
+          injection h with h; injection h with h1 _; subst h1
+          exact allWF_append hwf (fromRecord_wf c hcw e (by rw [he]; simp))
+  | elem a idx =>
+    simp only [CInstr.stepModel, CInstr.stepSpec, abs_get]
+    cases hc : cs[a]? with
+    | none => exact ⟨rfl, fun _ _ h => by cases h⟩
+    | some c =>
+      have hcw := allWF_get hwf a c hc
+      simp only [Option.map_some, Cont.abs]
+      rw [(get_as_record_eq_scalar c (Cont.position c.shape idx)).2]
+      cases hr : (Cont.position c.shape idx).bind (fun k => c.toRecs[k]?) with
+      | none => exact ⟨rfl, fun _ _ h => by cases h⟩
+      | some r =>
+        constructor
+        · simp [Outcome.map, absState, Cont.abs, Cont.fromRecord, toRecs_eq, recsOf]
+        · intro cs' w' h
+          simp only [] at h
+          injection h with h; injection h with h1 _; subst h1
+          -- the record is an element of `c`
+          cases hp : Cont.position c.shape idx with
+          | none => rw [hp] at hr; cases hr
+          | some k =>
+            rw [hp] at hr
+            simp only [Option.bind_some, toRecs_getElem?] at hr
+            cases hek : c.elems[k]? with
+            | none => rw [hek] at hr; cases hr
+            | some e =>
+              rw [hek] at hr
+              simp only [Option.map_some, Option.some.injEq, Rec.fromExisting] at hr
+              subst hr
+              exact allWF_append hwf (fromRecord_wf c hcw e (List.mem_of_getElem? hek))
+  | swap a i j =>
+    simp only [CInstr.stepModel, CInstr.stepSpec, abs_get]
+    cases hc : cs[a]? with
+    | none => exact ⟨rfl, fun _ _ h => by cases h⟩
+    | some c =>
+      have hcw := allWF_get hwf a c hc
+      simp only [Option.map_some, Cont.abs]
+      cases hpi : Cont.position c.shape i with
+      | none => exact ⟨rfl, fun _ _ h => by cases h⟩
+      | some pi =>
+        cases hpj : Cont.position c.shape j with
+        | none => exact ⟨rfl, fun _ _ h => by cases h⟩
+        | some pj =>
+          have key := swap_elems_eq_scalar c pi pj
+          constructor
+          · simp [Outcome.map, absState, Cont.abs, List.map_set, key.1, key.2.1]
+          · intro cs' w' h
+            simp only [] at h
+            injection h with h; injection h with h1 _; subst h1
+            exact allWF_set hwf a (swapElems_wf c pi pj hcw)
+  | fromIter a =>
+    simp only [CInstr.stepModel, CInstr.stepSpec, abs_get]
+    cases hc : cs[a]? with
+    | none => exact ⟨rfl, fun _ _ h => by cases h⟩
+    | some c =>
+      have hcw := allWF_get hwf a c hc
+      simp only [Option.map_some, Cont.abs]
+      rw [fromIterTensor_self c hcw]
+      have hl : c.toRecs.length = c.elems.length := by simp [Cont.toRecs]
+      rw [hl]
+      by_cases hv : validateDimensions c.shape c.elems.length = none
+      · rw [if_pos hv, if_pos hv]
+        constructor
+        · simp [Outcome.map, absState, Cont.abs]
+        · intro cs' w' h
+          simp only [] at h
+          injection h with h; injection h with h1 _; subst h1
+          exact allWF_append hwf hcw
+      · rw [if_neg hv, if_neg hv]
+        exact ⟨rfl, fun _ _ h => by cases h⟩
+
 /-- **Histories through programs.**  Any program of container operations — constructors,
     allocating operators, both multiplications, `reset`, the in-place forms, each consuming the
     results of earlier ones — run on well-formed containers ends with the containers, tapes and
     panic the same program ends with when every container is a list of scalar records and every
     operation is done element by element.  In particular each result's history is `Some` exactly
     when the element-by-element records are on a tape. -/
-theorem history_eq_elementwise (prog : List (CInstr R)) (hv : ∀ i ∈ prog, i.Valid)
+theorem history_eq_elementwise (prog : List (CInstr R))
     (cs : List (Cont R)) (w : World R) (hwf : AllWF cs) :
     (runModel prog cs w).map absState = runSpec prog (cs.map Cont.abs) w
       ∧ ∀ cs' w', runModel prog cs w = .ok (cs', w') → AllWF cs' := by
@@ -992,7 +1485,7 @@ theorem history_eq_elementwise (prog : List (CInstr R)) (hv : ∀ i ∈ prog, i.
     injection h with h; injection h with h1 _; subst h1
     exact hwf
   | cons i rest ih =>
-    have hstep := history_step_eq_elementwise i (hv i (List.mem_cons_self ..)) cs w hwf
+    have hstep := history_step_eq_elementwise i cs w hwf
     simp only [runModel, runSpec]
     rw [← hstep.1]
     cases hm : i.stepModel cs w with
@@ -1000,19 +1493,19 @@ theorem history_eq_elementwise (prog : List (CInstr R)) (hv : ∀ i ∈ prog, i.
     | ok r =>
       obtain ⟨cs1, w1⟩ := r
       simp only [Outcome.map, absState]
-      exact ih (fun j hj => hv j (List.mem_cons_of_mem _ hj)) cs1 w1 (hstep.2 cs1 w1 hm)
+      exact ih cs1 w1 (hstep.2 cs1 w1 hm)
 
 /-- **Derivatives after programs.**  When a program of container operations succeeds, the same
     program on scalar records succeeds with the same records and tapes, and `derivatives()` of
     every container in the final state — results of allocating operations, of multiplications,
     containers overwritten in place or `reset` — is the reverse sweep of its element-by-element
     records on the final tapes. -/
-theorem program_derivatives_eq_elementwise (prog : List (CInstr R)) (hv : ∀ i ∈ prog, i.Valid)
+theorem program_derivatives_eq_elementwise (prog : List (CInstr R))
     (cs : List (Cont R)) (w : World R) (hwf : AllWF cs) (cs' : List (Cont R)) (w' : World R)
     (hrun : runModel prog cs w = .ok (cs', w')) :
     runSpec prog (cs.map Cont.abs) w = .ok (cs'.map Cont.abs, w')
       ∧ ∀ c ∈ cs', c.derivatives w' = recsDerivatives c.abs.2 w' := by
-  have key := history_eq_elementwise prog hv cs w hwf
+  have key := history_eq_elementwise prog cs w hwf
   constructor
   · rw [← key.1, hrun]; rfl
   · intro c hc
@@ -1026,10 +1519,343 @@ theorem program_derivatives_eq_elementwise (prog : List (CInstr R)) (hv : ∀ i 
       simp only [recsOf_cons, List.head?_cons]
       cases c.history <;> rfl
 
-example : (CInstr.vars 0 [("r", 1), ("c", 2)] [(2 : ℚ), 3]).Valid := by
-  refine ⟨by decide, by simp⟩
 
 example : AllWF ([] : List (Cont ℚ)) := fun _ h => by cases h
+
+/-! ### programs keep the tapes well formed: every derivative request of a program succeeds -/
+
+/-- **Programs keep their state sound.**  Started on well-formed tapes (the empty ones, or any
+    tapes C04's operations can have produced) with containers whose positions are on their
+    tapes, every program of container operations (without `WengertList::clear`) ends — if it
+    does not panic — in a state with well-formed containers, well-formed tapes that only grew,
+    and every container's positions on its tape. -/
+theorem program_keeps_state_sound (prog : List (CInstr R)) (cs : List (Cont R)) (w : World R)
+    (h0 : SoundState cs w) (cs' : List (Cont R)) (w' : World R)
+    (hrun : runModel prog cs w = .ok (cs', w')) : SoundState cs' w' ∧ Grows w w' := by
+  induction prog generalizing cs w with
+  | nil =>
+    simp only [runModel] at hrun
+    injection hrun with hrun; injection hrun with h1 h2; subst h1; subst h2
+    exact ⟨h0, Grows.refl w⟩
+  | cons i rest ih =>
+    simp only [runModel] at hrun
+    cases hm : i.stepModel cs w with
+    | panic k => rw [hm] at hrun; cases hrun
+    | ok r =>
+      obtain ⟨cs1, w1⟩ := r
+      rw [hm] at hrun
+      have hwf1 := (history_step_eq_elementwise i cs w h0.1).2 cs1 w1 hm
+      -- one step keeps the state sound
+      have hstep : SoundState cs1 w1 ∧ Grows w w1 := by
+        have same : ∀ c : Cont R, c.WF → OnTape w c → Keeps w c w :=
+          fun c _ hc => ⟨h0.2.1, Grows.refl w, hc⟩
+        cases i with
+        | vars h shape vals =>
+          simp only [CInstr.stepModel] at hm
+          split at hm
+          · cases hm
+          · rename_i hbad
+            injection hm with hm; injection hm with h1 h2; subst h1; subst h2
+            have hlen : vals.length = elements shape := by
+              by_cases h : vals.length = elements shape
+              · exact h
+              · exact absurd (Or.inl h) hbad
+            have k := variables_keeps h shape vals w h0.2.1 hlen
+            exact ⟨soundState_append h0 (hwf1 _ (by simp)) k, k.2.1⟩
+        | consts shape vals =>
+          simp only [CInstr.stepModel] at hm
+          split at hm
+          · cases hm
+          · injection hm with hm; injection hm with h1 h2; subst h1; subst h2
+            exact ⟨soundState_append h0 (hwf1 _ (by simp))
+              ⟨h0.2.1, Grows.refl w, fun h hh => by simp [Cont.constants] at hh⟩, Grows.refl w⟩
+        | un op a =>
+          simp only [CInstr.stepModel] at hm
+          cases hc : cs[a]? with
+          | none => rw [hc] at hm; cases hm
+          | some c =>
+            rw [hc] at hm
+            injection hm with hm; injection hm with h1 h2; subst h1; subst h2
+            have k := (tape_invariant w h0.2.1).2.2.1 op c (h0.2.2 c (List.mem_of_getElem? hc))
+            exact ⟨soundState_append h0 (hwf1 _ (by simp)) k, k.2.1⟩
+        | bin op a b =>
+          simp only [CInstr.stepModel] at hm
+          cases hx : cs[a]? with
+          | none => rw [hx] at hm; cases hm
+          | some x =>
+            cases hy : cs[b]? with
+            | none => rw [hx, hy] at hm; cases hm
+            | some y =>
+              rw [hx, hy] at hm
+              simp only [] at hm
+              cases hb : op.container x y w with
+              | panic k => rw [hb] at hm; cases hm
+              | ok r =>
+                obtain ⟨c0, w0⟩ := r
+                rw [hb] at hm
+                simp only [Outcome.map] at hm
+                injection hm with hm; injection hm with h1 h2; subst h1; subst h2
+                have hxm := List.mem_of_getElem? hx
+                have hym := List.mem_of_getElem? hy
+                have k := (tape_invariant w h0.2.1).2.2.2.1 op x y c0 w0 (h0.1 x hxm) (h0.1 y hym)
+                  (h0.2.2 x hxm) (h0.2.2 y hym) hb
+                exact ⟨soundState_append h0 (hwf1 _ (by simp)) k, k.2.1⟩
+        | matmulT a b =>
+          simp only [CInstr.stepModel] at hm
+          cases hx : cs[a]? with
+          | none => rw [hx] at hm; cases hm
+          | some x =>
+            cases hy : cs[b]? with
+            | none => rw [hx, hy] at hm; cases hm
+            | some y =>
+              rw [hx, hy] at hm
+              simp only [] at hm
+              cases hb : x.matmulTensor y w with
+              | panic k => rw [hb] at hm; cases hm
+              | ok r =>
+                obtain ⟨c0, w0⟩ := r
+                rw [hb] at hm
+                simp only [Outcome.map] at hm
+                injection hm with hm; injection hm with h1 h2; subst h1; subst h2
+                have k := (tape_invariant w h0.2.1).2.2.2.2 x y c0 w0
+                  (h0.2.2 x (List.mem_of_getElem? hx)) (h0.2.2 y (List.mem_of_getElem? hy)) (Or.inl hb)
+                exact ⟨soundState_append h0 (hwf1 _ (by simp)) k, k.2.1⟩
+        | matmulM a b =>
+          simp only [CInstr.stepModel] at hm
+          cases hx : cs[a]? with
+          | none => rw [hx] at hm; cases hm
+          | some x =>
+            cases hy : cs[b]? with
+            | none => rw [hx, hy] at hm; cases hm
+            | some y =>
+              rw [hx, hy] at hm
+              simp only [] at hm
+              cases hb : x.matmulMatrix y w with
+              | panic k => rw [hb] at hm; cases hm
+              | ok r =>
+                obtain ⟨c0, w0⟩ := r
+                rw [hb] at hm
+                simp only [Outcome.map] at hm
+                injection hm with hm; injection hm with h1 h2; subst h1; subst h2
+                have k := (tape_invariant w h0.2.1).2.2.2.2 x y c0 w0
+                  (h0.2.2 x (List.mem_of_getElem? hx)) (h0.2.2 y (List.mem_of_getElem? hy)) (Or.inr hb)
+                exact ⟨soundState_append h0 (hwf1 _ (by simp)) k, k.2.1⟩
+        | reset a =>
+          simp only [CInstr.stepModel] at hm
+          cases hc : cs[a]? with
+          | none => rw [hc] at hm; cases hm
+          | some c =>
+            rw [hc] at hm
+            injection hm with hm; injection hm with h1 h2; subst h1; subst h2
+            have hcm := List.mem_of_getElem? hc
+            have k := reset_keeps c w h0.2.1 (h0.1 c hcm)
+            exact ⟨soundState_set h0 a (reset_wf c w (h0.1 c hcm)) k, k.2.1⟩
+        | unAssign op a =>
+          simp only [CInstr.stepModel] at hm
+          cases hc : cs[a]? with
+          | none => rw [hc] at hm; cases hm
+          | some c =>
+            rw [hc] at hm
+            injection hm with hm; injection hm with h1 h2; subst h1; subst h2
+            have hcm := List.mem_of_getElem? hc
+            have k := unary_keeps c op.fns.1 op.fns.2 w h0.2.1 (h0.2.2 c hcm)
+            have e := unaryAssign_eq c op.fns.1 op.fns.2 w (h0.1 c hcm).const_zero
+            have k' : Keeps w (c.unaryAssign op.fns.1 op.fns.2 w).1 (c.unaryAssign op.fns.1 op.fns.2 w).2 := by
+              rw [e]; exact ⟨k.1, k.2.1, fun h hh x hx => k.2.2 h hh x hx⟩
+            exact ⟨soundState_set h0 a (unaryAssign_wf c _ _ w (h0.1 c hcm)) k', k'.2.1⟩
+        | leftAssign op a b =>
+          simp only [CInstr.stepModel] at hm
+          cases hx : cs[a]? with
+          | none => rw [hx] at hm; cases hm
+          | some x =>
+            cases hy : cs[b]? with
+            | none => rw [hx, hy] at hm; cases hm
+            | some y =>
+              rw [hx, hy] at hm
+              simp only [] at hm
+              rw [binaryLeftAssign_eq] at hm
+              cases hb : x.binary y op.fns.1 op.fns.2.1 op.fns.2.2 w with
+              | panic k => rw [hb] at hm; cases hm
+              | ok r =>
+                obtain ⟨c0, w0⟩ := r
+                rw [hb] at hm
+                simp only [Outcome.map] at hm
+                injection hm with hm; injection hm with h1 h2; subst h1; subst h2
+                have hxm := List.mem_of_getElem? hx
+                have hym := List.mem_of_getElem? hy
+                have k := binary_keeps x y _ _ _ w h0.2.1 (h0.2.2 x hxm) (h0.2.2 y hym) (h0.1 x hxm)
+                  (h0.1 y hym) c0 w0 hb
+                exact ⟨soundState_set h0 a (hwf1 _ (mem_set_of_getElem? hx))
+                  ⟨k.1, k.2.1, fun h hh e he => k.2.2 h hh e he⟩, k.2.1⟩
+        | rightAssign op a b =>
+          simp only [CInstr.stepModel] at hm
+          cases hx : cs[a]? with
+          | none => rw [hx] at hm; cases hm
+          | some x =>
+            cases hy : cs[b]? with
+            | none => rw [hx, hy] at hm; cases hm
+            | some y =>
+              rw [hx, hy] at hm
+              simp only [] at hm
+              rw [(do_forms_eq x y id id _ _ _ w).2.2.1] at hm
+              unfold Cont.binaryRightAssign at hm
+              rw [binaryLeftAssign_eq] at hm
+              cases hb : y.binary x (fun v u => op.fns.1 u v) (fun v u => op.fns.2.2 u v)
+                  (fun v u => op.fns.2.1 u v) w with
+              | panic k => rw [hb] at hm; cases hm
+              | ok r =>
+                obtain ⟨c0, w0⟩ := r
+                rw [hb] at hm
+                simp only [Outcome.map] at hm
+                injection hm with hm; injection hm with h1 h2; subst h1; subst h2
+                have hxm := List.mem_of_getElem? hx
+                have hym := List.mem_of_getElem? hy
+                have k := binary_keeps y x _ _ _ w h0.2.1 (h0.2.2 y hym) (h0.2.2 x hxm) (h0.1 y hym)
+                  (h0.1 x hxm) c0 w0 hb
+                exact ⟨soundState_set h0 b (hwf1 _ (mem_set_of_getElem? hy))
+                  ⟨k.1, k.2.1, fun h hh e he => k.2.2 h hh e he⟩, k.2.1⟩
+        | clone a =>
+          simp only [CInstr.stepModel] at hm
+          cases hc : cs[a]? with
+          | none => rw [hc] at hm; cases hm
+          | some c =>
+            rw [hc] at hm
+            simp only [] at hm
+            have hcl : Cont.cloneFrom c c.clone = c := by
+              rw [(clone_eq c c).1]; exact (clone_eq c c).2.1
+            rw [hcl] at hm
+            injection hm with hm; injection hm with h1 h2; subst h1; subst h2
+            have hcm := List.mem_of_getElem? hc
+            exact ⟨soundState_append h0 (h0.1 c hcm) (same c (h0.1 c hcm) (h0.2.2 c hcm)), Grows.refl w⟩
+        | viaRecord a =>
+          simp only [CInstr.stepModel] at hm
+          cases hc : cs[a]? with
+          | none => rw [hc] at hm; cases hm
+          | some c =>
+            rw [hc] at hm
+            simp only [] at hm
+            have hcm := List.mem_of_getElem? hc
+            simp only [Cont.intoRecord, Cont.intoRecordRef] at hm
+            cases he : c.elems with
+            | nil => exact absurd he (h0.1 c hcm).nonempty
+            | cons e es =>
+              rw [he] at hm
+              injection hm with hm; injection hm with h1 h2; subst h1; subst h2
+              refine ⟨soundState_append h0 (hwf1 _ (by simp)) ⟨h0.2.1, Grows.refl w, ?_⟩, Grows.refl w⟩
+              intro h hh x hx
+              simp only [Cont.fromRecordRef, Rec.fromExisting, Rec.clone, List.mem_singleton] at hx hh
+              subst hx
+              exact h0.2.2 c hcm h hh e (by rw [he]; simp)
+        | elem a idx =>
+          simp only [CInstr.stepModel] at hm
+          cases hc : cs[a]? with
+          | none => rw [hc] at hm; cases hm
+          | some c =>
+            rw [hc] at hm
+            simp only [] at hm
+            have hcm := List.mem_of_getElem? hc
+            simp only [Cont.getAsRecord, Cont.tryGetAsRecord] at hm
+            cases hp : Cont.position c.shape idx with
+            | none => rw [hp] at hm; cases hm
+            | some k =>
+              rw [hp] at hm
+              simp only [] at hm
+              cases hek : c.elems[k]? with
+              | none => rw [hek] at hm; cases hm
+              | some e =>
+                rw [hek] at hm
+                simp only [Option.map_some] at hm
+                injection hm with hm; injection hm with h1 h2; subst h1; subst h2
+                refine ⟨soundState_append h0 (hwf1 _ (by simp)) ⟨h0.2.1, Grows.refl w, ?_⟩, Grows.refl w⟩
+                intro h hh x hx
+                simp only [Cont.fromRecord, List.mem_singleton] at hx hh
+                subst hx
+                exact h0.2.2 c hcm h hh e (List.mem_of_getElem? hek)
+        | swap a i j =>
+          simp only [CInstr.stepModel] at hm
+          cases hc : cs[a]? with
+          | none => rw [hc] at hm; cases hm
+          | some c =>
+            rw [hc] at hm
+            simp only [] at hm
+            have hcm := List.mem_of_getElem? hc
+            cases hpi : Cont.position c.shape i with
+            | none => rw [hpi] at hm; cases hm
+            | some pi =>
+              cases hpj : Cont.position c.shape j with
+              | none => rw [hpi, hpj] at hm; cases hm
+              | some pj =>
+                rw [hpi, hpj] at hm
+                injection hm with hm; injection hm with h1 h2; subst h1; subst h2
+                refine ⟨soundState_set h0 a (swapElems_wf c pi pj (h0.1 c hcm))
+                  ⟨h0.2.1, Grows.refl w, ?_⟩, Grows.refl w⟩
+                intro h hh e he
+                have hon := h0.2.2 c hcm
+                unfold Cont.swapElems at he hh
+                cases hxi : c.elems[pi]? with
+                | none => rw [hxi] at he hh; exact hon h hh e he
+                | some x =>
+                  cases hxj : c.elems[pj]? with
+                  | none => rw [hxi, hxj] at he hh; exact hon h hh e he
+                  | some y =>
+                    rw [hxi, hxj] at he hh
+                    simp only at he hh
+                    rcases List.mem_or_eq_of_mem_set he with he | rfl
+                    · rcases List.mem_or_eq_of_mem_set he with he | rfl
+                      · exact hon h hh e he
+                      · exact hon h hh _ (List.mem_of_getElem? hxj)
+                    · exact hon h hh _ (List.mem_of_getElem? hxi)
+        | fromIter a =>
+          simp only [CInstr.stepModel] at hm
+          cases hc : cs[a]? with
+          | none => rw [hc] at hm; cases hm
+          | some c =>
+            rw [hc] at hm
+            simp only [] at hm
+            have hcm := List.mem_of_getElem? hc
+            rw [fromIterTensor_self c (h0.1 c hcm)] at hm
+            by_cases hv : validateDimensions c.shape c.elems.length = none
+            · rw [if_pos hv] at hm
+              simp only [] at hm
+              injection hm with hm; injection hm with h1 h2; subst h1; subst h2
+              exact ⟨soundState_append h0 (h0.1 c hcm) (same c (h0.1 c hcm) (h0.2.2 c hcm)), Grows.refl w⟩
+            · rw [if_neg hv] at hm
+              cases hm
+      obtain ⟨hs, hg⟩ := ih cs1 w1 hstep.1 hrun
+      exact ⟨hs, hstep.2.trans hg⟩
+
+/-- **Every derivative request after a program succeeds**: from the empty state on the empty
+    tapes (no hypotheses left), whatever program ran, `derivatives()` of every variable
+    container of the final state returns one vector per element, each as long as the tape, and
+    they are the reverse sweeps of the element-by-element records. -/
+theorem program_from_scratch (prog : List (CInstr R)) (cs' : List (Cont R)) (w' : World R)
+    (hrun : runModel prog [] World.empty = .ok (cs', w')) :
+    runSpec prog [] World.empty = .ok (cs'.map Cont.abs, w')
+      ∧ ∀ c ∈ cs', c.WF ∧ c.derivatives w' = recsDerivatives c.abs.2 w'
+          ∧ ∀ h, c.history = some h →
+              ∃ ds, c.derivatives w' = .ok (some ds) ∧ ds.length = c.elems.length
+                ∧ ∀ d ∈ ds, d.length = (w' h).length := by
+  have hwf0 : AllWF ([] : List (Cont R)) := fun _ h => by cases h
+  have h0 : SoundState ([] : List (Cont R)) (World.empty : World R) :=
+    ⟨hwf0, fun _ => by simp [World.empty, Tape.WF], fun _ h => by cases h⟩
+  have key := program_derivatives_eq_elementwise prog [] World.empty hwf0 cs' w' hrun
+  have sound := (program_keeps_state_sound prog [] World.empty h0 cs' w' hrun).1
+  refine ⟨by simpa using key.1, ?_⟩
+  intro c hc
+  exact ⟨sound.1 c hc, key.2 c hc, fun h hh => derivatives_total c w' h hh sound.2.1 (sound.2.2 c hc)⟩
+
+/-- a program that runs: a constants container, its clone, an element of it -/
+example : ∃ r, runModel [CInstr.consts [("a", 1)] [(1 : R)], CInstr.clone 0, CInstr.elem 1 [0]]
+    [] (World.empty : World R) = .ok r :=
+  ⟨_, by simp [runModel, CInstr.stepModel, elements, prod, Cont.constants, Cont.clone,
+    Cont.cloneFrom, Cont.getAsRecord, Cont.tryGetAsRecord, Cont.position, getIndexDirect,
+    getIndexDirectGo, computeStrides]; rfl⟩
+
+example : SoundState ([] : List (Cont ℚ)) (World.empty : World ℚ) := by
+  refine ⟨?_, ?_, ?_⟩
+  · intro c h; cases h
+  · intro h; simp [World.empty, Tape.WF]
+  · intro c h; cases h
 
 /-! ### the pinned commit: what the repairs change (kernel evaluation on concrete witnesses) -/
 
@@ -1081,5 +1907,40 @@ theorem repaired_matrix_matmul_rejects_two_tapes :
     isPanic (m14.1.matmulMatrix n14.1 n14.2) = true := by decide
 
 end AsWritten
+
+/-! ### the seeded changes of round 6: what they falsify (kernel evaluation on concrete witnesses) -/
+
+section Seeded
+
+/-- two 1×1 record matrices on one tape: `a = [5]` at position 0, `b = [3]` at position 1 -/
+def a62 : Cont ℤ × World ℤ := Cont.variables 0 [("r", 1), ("c", 1)] [5] World.empty
+def b62 : Cont ℤ × World ℤ := Cont.variables 0 [("r", 1), ("c", 1)] [3] a62.2
+
+/-- `do_binary_right_assign` with `f(x, y) = x − y`: `∂/∂a = 1`, `∂/∂b = −1` (and 1 for the new
+    entry itself) — what `do_binary_right_assign_eq_elementwise` says in general … -/
+theorem do_binary_right_assign_partials :
+    derivs11 (a62.1.doBinaryRightAssign b62.1 (fun x y => x - y) (fun _ _ => 1) (fun _ _ => -1) b62.2)
+      = some [[1, -1, 1]] := by decide
+
+/-- … while the seeded variant (C06-r6m2) hands the two partial derivatives to the wrong
+    operands: `do_forms_eq` and `do_binary_right_assign_eq_elementwise` fail for it. -/
+theorem seeded_do_binary_right_assign_swaps_partials :
+    derivs11 (a62.1.doBinaryRightAssignSeeded b62.1 (fun x y => x - y) (fun _ _ => 1) (fun _ _ => -1) b62.2)
+      = some [[-1, 1, 1]] := by decide
+
+/-- `From<&Record>` keeps the position (`from_conversions_keep_index`): the record at position 0
+    of a tape with two entries becomes a container whose element is at position 0, the tape
+    keeps its two entries … -/
+theorem from_ref_keeps_position :
+    (Cont.fromRecordRef (⟨2, some 0, 0⟩ : Rec ℤ)).toRecs.map (·.index) = [0] := by decide
+
+/-- … while the seeded variant (C06-r6m1) builds a disconnected variable: a new entry at
+    position 2 of a tape that now has three entries. -/
+theorem seeded_from_ref_disconnects :
+    (Cont.fromRecordRefSeeded (⟨2, some 0, 0⟩ : Rec ℤ) x11.2).1.toRecs.map (·.index) = [2]
+      ∧ ((Cont.fromRecordRefSeeded (⟨2, some 0, 0⟩ : Rec ℤ) x11.2).2 0).length = 3
+      ∧ (x11.2 0).length = 2 := by decide
+
+end Seeded
 
 end EasyMl.C06
